@@ -29,6 +29,7 @@ fn pop_strategy(c12: bool) -> BoxedStrategy<POp> {
     let mut v: Vec<(u32, BoxedStrategy<POp>)> = vec![
         (28, (size.clone(), 0u8..4).prop_map(|(n, payload)| POp::AllocBytes { n, payload }).boxed()),
         (16, (1u8..=8, -9i8..=9, 0u8..4).prop_map(|(num, d, payload)| POp::AllocRel { num, d, payload }).boxed()),
+        (6, (any::<u8>(), -4i8..=0, 0u8..4).prop_map(|(ix, d, payload)| POp::AllocSeg { ix, d, payload }).boxed()),
         (18, (0..nt, 0u8..4).prop_map(|(ty, payload)| POp::AllocTyped { ty, payload }).boxed()),
         (10, (0..nt, 0u16..40, 0u8..4).prop_map(|(ty, n, payload)| POp::AllocAligned { ty, n, payload }).boxed()),
         (34, any::<u16>().prop_map(|h| POp::Drop { h }).boxed()),
@@ -56,12 +57,21 @@ fn schedule_strategy(maxlen: usize) -> BoxedStrategy<Vec<u8>> {
             v.extend(std::iter::repeat(a).take(k));
             v
         }),
+        // thread 0 runs alone first (it sets the scene), then uniform choices
+        2 => (8usize..120, prop::collection::vec(any::<u8>(), 0..=maxlen)).prop_map(|(l, rest)| {
+            let mut v = vec![0u8; l];
+            v.extend(rest);
+            v
+        }),
         1 => Just(Vec::new()),
     ]
     .boxed()
 }
 
 pub fn case_b_strategy(tier: Tier, freelists: &'static [(u32, u8)], c12: bool) -> BoxedStrategy<CaseB> {
+    // the happens-before check gets the larger share of nested removal windows: orderings on the restore paths only
+    // matter when two failed unlinks overlap
+    let nested_w: u32 = if c12 { 5 } else { 1 };
     let (maxops, maxthreads, schedlen) = if tier == Tier::Thorough { (10usize, 4usize, 160usize) } else { (6, 3, 64) };
     let extra_pre = prop::collection::vec(prop_oneof![3 => any::<u16>().prop_map(|h| Op::Drop { h }), 1 => (1u32..60).prop_map(|n| Op::AllocBytes { n: crate::case::Size::Abs(n), owned: false, via: 0 })], 0..=3);
     let spurious = if tier == Tier::Thorough { any::<bool>().boxed() } else { Just(false).boxed() };
@@ -86,9 +96,27 @@ pub fn case_b_strategy(tier: Tier, freelists: &'static [(u32, u8)], c12: bool) -
         t.rotate_left(k);
         t
     });
+    // nested removal windows: thread 0 takes the last (largest, in a Pessimistic list) segment, writes it and frees it
+    // again under the scheduler; 2..4 further threads each ask for the size of a segment at a generated list position,
+    // so that - with the mark pre-emption on - several threads sit between their mark and their unlink on
+    // neighbouring nodes of one list at the same time (failed unlinks, restored node words, then a taker)
+    let seg = |hi: bool| (if hi { 200u8..=255 } else { 0u8..=255 }, prop_oneof![3 => Just(0i8), 2 => -4i8..=0, 1 => -9i8..=9], 0u8..4).prop_map(|(ix, d, payload)| POp::AllocSeg { ix, d, payload });
+    let follower = (seg(false), prop::collection::vec(prop_oneof![2 => seg(false), 1 => pop_strategy(c12)], 0..=2)).prop_map(|(first, rest)| {
+        let mut v = vec![first];
+        v.extend(rest);
+        v
+    });
+    let nested = (seg(true), prop::collection::vec(follower, 2..=4), prop::collection::vec(pop_strategy(c12), 0..=1)).prop_map(|(first, others, tail)| {
+        let mut t0 = vec![first, POp::Drop { h: 0 }];
+        t0.extend(tail);
+        let mut t = vec![t0];
+        t.extend(others);
+        t
+    });
     let progs = prop_oneof![
-        4 => prop::collection::vec(prop::collection::vec(pop_strategy(c12), 1..=maxops), 2..=maxthreads),
-        1 => templ,
+        8 => prop::collection::vec(prop::collection::vec(pop_strategy(c12), 1..=maxops), 2..=maxthreads),
+        2 => templ,
+        nested_w => nested,
     ];
     (cfg_b(freelists), prelude_strategy(), extra_pre, progs, schedule_strategy(schedlen), prop_oneof![2 => Just(0u8), 3 => 1u8..=40], spurious)
         .prop_map(|(cfg, mut pre, extra, progs, schedule, mark_preempt, spurious)| {
@@ -175,8 +203,8 @@ engb_prop!(C07, "C07", LIST_FL, false, false, 64_000, 2_000_000,
     "Engine B programs (as C02, Optimistic and Pessimistic only) in which threads keep allocations forever or finish early, under uniform, bursty and mark-targeted schedules with a fair round-robin fallback. Oracle (bounded safety surrogate for the liveness statement): per thread, the number of consecutive scheduling points during which no thread changed any word; a thread is stalled above L = 8*(nodes+ops+2)*max_retries+64; violation iff every unfinished thread is stalled (the state can no longer change, so no call can return). A single operation exceeding 100*L steps while others still write is counted as inconclusive, not as a violation. Non-trivial = some thread observed a marked node or had a CAS fail",
     |r| r.saw_marked || r.cas_failures >= 1);
 
-engb_prop!(C12, "C12", ALL_FL, true, true, 48_000, 1_500_000,
-    "Engine B programs extended with owned buffers created on one thread and sent to / dropped on another (harness mailbox carrying a vector clock), arena clones created and dropped by threads. A FastTrack-style detector is driven by the hook's event stream with the orderings the code actually passes: release clocks per atomic location (store Release sets, relaxed store clears, RMW joins and continues the release sequence), acquire on loads / failed CAS with an acquiring ordering; per-byte shadow of the last write and last reads for the owners' plain accesses, the arena's zeroing, the arena's atomic accesses inside arena memory and the final release of the backing memory. Race = two accesses to a common byte by different threads, at least one a write, at least one non-atomic, unordered. The original arena value is moved into thread 0 and the main thread keeps none, so the backing memory is released by whichever thread drops the last value, under the scheduler, and that release is checked as a plain write to every byte. Non-trivial = a byte range changed owner thread at least once, or the last arena value was dropped by a thread other than the creator's",
+engb_prop!(C12, "C12", ALL_FL, true, true, 240_000, 2_500_000,
+    "Engine B programs (2..3 threads, thorough 4; up to 5 in the nested-removal-window family: thread 0 pops the last segment, writes it and frees it again, 2..4 threads then ask for the sizes of segments at generated list positions while every marking thread is pre-empted right after its mark) extended with owned buffers created on one thread and sent to / dropped on another (harness mailbox carrying a vector clock), arena clones created and dropped by threads. A FastTrack-style detector is driven by the hook's event stream with the orderings the code actually passes: release clocks per atomic location (store Release sets, relaxed store clears, RMW joins and continues the release sequence), acquire on loads / failed CAS with an acquiring ordering; per-byte shadow of the last write and last reads for the owners' plain accesses, the arena's zeroing, the arena's atomic accesses inside arena memory and the final release of the backing memory. Race = two accesses to a common byte by different threads, at least one a write, at least one non-atomic, unordered. The original arena value is moved into thread 0 and the main thread keeps none, so the backing memory is released by whichever thread drops the last value, under the scheduler, and that release is checked as a plain write to every byte. Non-trivial = a byte range changed owner thread at least once, or the last arena value was dropped by a thread other than the creator's",
     |r| r.owner_changes >= 1 || r.classes.contains("last-drop-on-non-creator-thread"));
 
 // ------------------------------------------------------------------------------------------ C13
